@@ -131,6 +131,21 @@ func ruleWriteIsSerialized(c *Ctx) {
 						errs = append(errs, cl)
 						return
 					}
+					// the same serializer reached through an unexported interface of the
+					// repository: every implementation the call graph resolves is a proto serializer
+					if cl, ok := ex.Tuple.(*ssa.Call); ok && cl.Common().IsInvoke() && cl.Common().Method.Name() == "RESPBytes" {
+						targets := c.P.calleesAt(cl)
+						okAll := len(targets) > 0
+						for _, t := range targets {
+							if n := fnName(t); !(strings.HasSuffix(n, "proto.Message).RESPBytes") || strings.HasSuffix(n, "proto.Array).RESPBytes")) {
+								okAll = false
+							}
+						}
+						if okAll {
+							errs = append(errs, cl)
+							return
+						}
+					}
 				}
 				problems = append(problems, fmt.Sprintf("bytes written come from %s, not from Message.RESPBytes()", describeValue(sv)))
 			}
